@@ -25,7 +25,7 @@
            | (ite e blk blk) | (if1 e blk) | (match opt|enm e arm…) | (while e blk) | (for x e blk)
            | (block blk) | (set x e) | (cset op x e) | (ret e) | (accept e) | (reject e)
            | (try e) | (some e) | (none) | (ctor k e…) | (record e…) | (field e i)
-           | (list e…) | (fstr part…)
+           | (list e…) | (fstr part…) | (concat e e)
     arm  ::= (arm pat blk) | (armg pat e blk)      pat ::= (v k x…) | (wild)
     part ::= (s x<hex>) | (e e)
 -/
@@ -141,6 +141,7 @@ partial def toExpr : Sexp → Option Expr
   | .list [.atom "field", e, .atom i] => do pure (.field (← toExpr e) (← i.toNat?))
   | .list (.atom "list" :: es) => do pure (.list (← toExprs es))
   | .list (.atom "fstr" :: ps) => do pure (.fstr (← toParts ps))
+  | .list [.atom "concat", l, r] => do pure (.concat (← toExpr l) (← toExpr r))
   | _ => none
 
 partial def toExprs : List Sexp → Option Exprs
